@@ -5,15 +5,17 @@ from .common import find_calls, one_call, call_outcomes, follow_value, Ensures
 from . import paths as P
 
 EXPLANATION = (
-    "Decides structural necessary conditions of C07 from MIR: (R1) Capability::merge evaluated over {Read,Write}^2 x {same id, "
-    "other id}: Err iff the ids differ, self replaced by other iff (self=Read, other=Write), returns true iff replaced; (R2) the "
-    "in-memory capability of an open replica (field ReplicaInfo.capability) is initialised only in ReplicaInfo::new and mutated "
-    "only by passing it to Capability::merge (who-may-write over all bodies, incl. &mut escapes); (R3) Store::import_namespace: "
-    "when a row exists the row written back is the parsed existing capability after merging the argument into it, never the "
-    "argument; Upgraded is reported only on merge's true edge; key = capability id; the namespaces table has no other writer "
-    "besides remove_replica and migration 002; (R4) the actor merges into the open replica's state on Upgraded; (R5) "
-    "Capability::secret_key is Ok iff Write and local insert/delete obtain the signing key from it before any store call. "
-    "NOT decided: redb persistence itself."
+    'Decides structural necessary conditions of C07 from MIR: (R1) Capability::merge evaluated over {Read,Write}^2 x {same '
+    'id, other id}: Err iff the ids differ, self replaced by other iff (self=Read, other=Write), returns true iff replaced;'
+    ' (R2) the in-memory capability of an open replica (field ReplicaInfo.capability) is initialised only in '
+    'ReplicaInfo::new and mutated only by passing it to Capability::merge (who-may-write over all bodies, incl. &mut '
+    "escapes); (R3) Store::import_namespace's transaction evaluated on {no stored row, stored row} x merge "
+    '{true,false,Err}: when a row exists the row written back is the parsed existing capability after merging the argument '
+    "into it, never the argument; Upgraded is reported only on merge's true edge; key = capability id; the namespaces table"
+    " has no other writer besides remove_replica and migration 002; (R4) the actor's import handler evaluated on outcome x "
+    "{open, closed}: the imported capability is merged into the open replica's state exactly on Upgraded; (R5) "
+    'Capability::secret_key is Ok iff Write and local insert/delete obtain the signing key from it before any store call. '
+    'NOT decided: redb persistence itself.'
 )
 ASSUMPTIONS = ["std::mem::replace(self, other) stores other into self", "redb tables are identified by their key/value types"]
 
